@@ -29,7 +29,8 @@ RULE = ('msgs: random descriptions (1-3 modules incl. one named "None" sometimes
         'the specification-side value set of the datatype, timestamps past/now/future/NaN/inf/absent) or malformed data '
         '(bad JSON, non-array, short array, qualifiers not an object, non-numeric t, rejected payload, bad error '
         'report), callbacks of the three kinds at node/module/parameter level returning, raising UnregisterCallback or '
-        'raising an exception at scripted invocation numbers; e2e: every datatype x valid values written through '
+        'raising an exception at scripted invocation numbers, plus all op sequences of length <= 2 (thorough: 3) over an '
+        '11-letter alphabet on a fixed description; e2e: every datatype x valid values written through '
         'SecopClient.setParameter / read through readParameter against a real node over loopback TCP (thorough: also '
         'through a Proxy node).  Non-trivial: at least one accepted message (msgs) / one completed write (e2e); '
         'distinct = distinct (description, ops, behaviours) / (datainfo, value, driver result)')
@@ -1117,13 +1118,44 @@ def gen_msgs_case(rng):
     return {'kind': 'msgs', 'desc': desc, 'dts': dts, 'ops': ops, 'beh': beh}
 
 
+def exhaustive_cases(depth, scripts):
+    """all op sequences of the given length over a small alphabet on a fixed two-module description"""
+    import itertools
+    desc = [['m', [['value', 'p', 0], ['target', 'p', 0], ['stop', 'c', 0]]], ['None', [['value', 'p', 0]]]]
+    dts = [{'type': 'double'}]
+    alpha = [
+        ['reg', None, 'updateItem', 1], ['reg', 'm', 'updateEvent', 2], ['reg', ['m', 'value'], 'updateItem', 3],
+        ['unreg', None, 'updateItem', 1],
+        ['msg', 'update m:value [1.5, {"t": 1}]'], ['msg', 'update m [2.5, {"t": 4000000}]'], ['msg', 'changed m [3, {}]'],
+        ['msg', 'error_update m:value ["HardwareError", "RangeError: x", {}]'], ['msg', 'update m:value [1, {"t": "x"}]'],
+        ['msg', 'update . [4, {}]'], ['msg', 'update m:stop [1, {}]'],
+    ]
+    for seq in itertools.product(alpha, repeat=depth):
+        ops = []
+        for i, o in enumerate(seq):
+            ops.append(list(o) + [204800 + 1024 * i] if o[0] == 'msg' else list(o))
+        for beh in scripts:
+            yield {'kind': 'msgs', 'desc': desc, 'dts': dts, 'ops': ops, 'beh': beh}
+
+
 def gen_cases(seed, tier):
     rng = random.Random(seed * 1000003 + 12)
-    n = {'quick': 3900, 'thorough': 60000, 'search': 30000}[tier]
+    n = {'quick': 3600, 'thorough': 40000, 'search': 12000}[tier]
     cases = [gen_msgs_case(rng) for _ in range(n)]
+    if tier == 'quick':
+        for d in (1, 2):
+            cases.extend(exhaustive_cases(d, [[], [[0, 'U'], [2, 'E']]]))
+    elif tier == 'thorough':
+        for d in (1, 2, 3):
+            cases.extend(exhaustive_cases(d, [[], [[0, 'U']], [[1, 'E']], [[0, 'E'], [2, 'U']]]))
     from harness import c12_e2e
     cases.extend(c12_e2e.gen_e2e_cases(rng, tier))
     return cases
+
+
+def search_cases(seed, mismatching):
+    """more of the same with another seed (bounded so that a broken obligation is reported within minutes)"""
+    return gen_cases(seed + 7919, 'search')
 
 
 def shrink(case):
